@@ -1180,7 +1180,27 @@ fn main() {
     run_civil(&r, &t, "datetime", &dts, &[0, 1, 2, 3, 4, 5, 6, 7, 8, 9]);
 
     // ---------------- Timestamp ----------------
-    let tss = vf::pools::timestamps();
+    let mut tss = vf::pools::timestamps();
+    {
+        // Pairs whose distance straddles what a 64-bit nanosecond count can
+        // hold (2^63 ns = 9_223_372_036.854775808 s), in (second, nanosecond)
+        // components: second differences one below, at and one above that
+        // threshold, with fractions at both extremes and of both signs, so that
+        // the two sub-second fields differ by anything up to +-1_999_999_998.
+        const S63: i64 = 9_223_372_036;
+        let fr = [0i32, 1, 145_224_192, 500_000_000, 854_775_807, 854_775_808, 900_000_000, 990_000_000, 999_999_999];
+        for sign in [1i64, -1] {
+            for s in [0i64, 1, S63 - 1, S63, S63 + 1] {
+                for n in fr {
+                    if let Ok(ts) = Timestamp::new(sign * s, (sign as i32) * n) {
+                        if !tss.contains(&ts) {
+                            tss.push(ts);
+                        }
+                    }
+                }
+            }
+        }
+    }
     run_civil(&r, &t, "timestamp", &tss, &[4, 5, 6, 7, 8, 9]);
 
     // ---------------- Zoned ----------------
